@@ -23,10 +23,7 @@ pub fn out_res_unit(r: Result<(), dr::Error>) -> CallOut { CallOut::ResUnit(r) }
 pub fn out_res_id(r: Result<u32, dr::Error>) -> CallOut { CallOut::ResId(r) }
 pub fn out_res_inst(r: Result<dr::Instruction, dr::Error>) -> CallOut { CallOut::ResInst(r) }
 
-fn err_variant(e: &dr::Error) -> String {
-    let s = format!("{:?}", e);
-    s.split(|c| c == '(' || c == ' ' || c == '{').next().unwrap_or("").to_string()
-}
+fn err_variant(e: &dr::Error) -> String { crate::gen::errors::loader_err_name(e).to_string() }
 impl CallOut {
     pub fn to_json(&self) -> Value {
         match self {
